@@ -927,6 +927,26 @@ Definition pk_probe_panics (csc : tschema) (gone : list row) : bool :=
   | None => false
   end.
 
+(** delete/executor.rs collect_rows_with_scan: [evaluator.eval(where_expr, row)?] -- an evaluation error
+    on any row (the WHERE column is unknown to the CATALOG schema, or its catalog position lies beyond
+    the stored row) fails the statement before anything is deleted; the primary-key fast path does
+    not evaluate the predicate *)
+Definition scan_fails (csc ssc : tschema) (w : option (name * Z)) (rows : list row) : bool :=
+  match w with
+  | None => false
+  | Some (c, _) =>
+      let fast :=
+        match pk_indices csc, get_column_index csc c with
+        | Some [p], Some ci => Nat.eqb p ci
+        | _, _ => false
+        end in
+      if fast && is_some (ts_pk ssc) then false
+      else match get_column_index csc c with
+           | None => negb (Nat.eqb (length rows) 0)
+           | Some i => existsb (fun r => negb (is_some (nth_error r i))) rows
+           end
+  end.
+
 (** delete/executor.rs *)
 Definition exec_delete (s : state) (tn : name) (w : option (name * Z)) : state * result :=
   match cat_get_table s tn with
@@ -961,7 +981,8 @@ Definition exec_delete (s : state) (tn : name) (w : option (name * Z)) : state *
                 end in
               let rows' := filter_idx keep 0 rows in
               let gone := filter_idx (fun i r => negb (keep i r)) 0 rows in
-              if is_some w && pk_probe_panics csc gone then (s, RPanic)
+              if scan_fails csc (t_schema tb) w rows then (s, RErr)
+              else if is_some w && pk_probe_panics csc gone then (s, RPanic)
               else
               let s1 := set_table s k (mktab (t_schema tb) rows') in
               match db_rebuild_indexes s1 tn with
